@@ -112,7 +112,8 @@ class TokenParser(Parser):
             nextval = 1
 
         values = {}
-        for line in d["values"].splitlines():
+        # A line break next to the "=" of a member does not end that member
+        for line in re.sub(r"\s*\n\s*=|=\s*\n\s*", " = ", d["values"]).splitlines():
             for v in line.split(","):
                 key, _, val = v.partition("=")
                 key = key.strip()
